@@ -2,7 +2,7 @@
  * qmail-rspawn.  argv: host sender recip...   descriptor 0: the message file, 1: report pipe.
  * Behaviour is scripted per recipient: for recipient "<name>@host" the files
  *   $VERIF_QR_DIR/<name>.out   bytes to print on descriptor 1 (optional)
- *   $VERIF_QR_DIR/<name>.exit  "exit N" or "signal N" (optional, default exit 0)
+ *   $VERIF_QR_DIR/<name>.exit  "exit N" or "signal N", optionally preceded by "late " (optional, default exit 0)
  * Every invocation is logged to $VERIF_QR_DIR/log.<pid>: recipient, sender, host and what
  * descriptor 0 is (inode, mode, owner).
  */
@@ -45,7 +45,13 @@ int main(int argc, char **argv)
   if (fd >= 0) {
     n = read(fd, buf, sizeof buf - 1);
     close(fd);
-    if (n > 0) { buf[n] = 0; if (!strncmp(buf, "exit ", 5)) code = atoi(buf + 5); else if (!strncmp(buf, "signal ", 7)) sig = atoi(buf + 7); }
+    if (n > 0) {
+      char *b = buf;
+      buf[n] = 0;
+      /* "late ...": the output is closed first and the end comes a moment later (a client that dies after it has said everything) */
+      if (!strncmp(b, "late ", 5)) { b += 5; close(1); close(2); usleep(150000); }
+      if (!strncmp(b, "exit ", 5)) code = atoi(b + 5); else if (!strncmp(b, "signal ", 7)) sig = atoi(b + 7);
+    }
   }
   if (sig) { signal(sig, SIG_DFL); kill(getpid(), sig); pause(); }
   _exit(code);
